@@ -1,14 +1,16 @@
 //! C16 (and the key part of C07): ElementSpecification text, string-keyed reads.
 use crate::util::{guarded, Rng};
 use chemical_elements::{
-    ChemicalComposition, ChemicalCompositionMap, ChemicalCompositionVec, ElementSpecification,
+    ChemicalComposition, ChemicalCompositionMap, ChemicalCompositionVec, ChemicalElements, ElementSpecification,
     ElementSpecificationParsingError, PERIODIC_TABLE,
 };
+use std::sync::LazyLock;
+static HELPER: LazyLock<ChemicalElements<'static>> = LazyLock::new(ChemicalElements::new);
 use serde_json::{json, Value};
 
 pub const ALPHABET: [char; 19] = ['C', 'H', 'l', 'c', 'A', '1', '3', '0', '[', ']', 'é', '𝟚', ' ', '+', '*', 'e', 'U', 'u', 'o'];
 
-fn parse_out(r: Result<Result<ElementSpecification<'static>, ElementSpecificationParsingError>, String>) -> Value {
+fn parse_out(r: Result<Result<ElementSpecification<'_>, ElementSpecificationParsingError>, String>) -> Value {
     match r {
         Ok(Ok(k)) => json!({"ok": [k.element.symbol, k.isotope]}),
         Ok(Err(e)) => json!({"err": e as u32}),
@@ -25,8 +27,9 @@ fn emit(id: usize, s: &str, comps: &(ChemicalCompositionVec<'static>, ChemicalCo
     let p1 = parse_out(guarded(|| ElementSpecification::parse(s)));
     let p2 = parse_out(guarded(|| s.parse::<ElementSpecification>()));
     let p3 = parse_out(guarded(|| ElementSpecification::parse_with(s, &PERIODIC_TABLE)));
-    let same = p1 == p2 && p2 == p3;
-    println!("{}", json!({"id": id, "s": s, "parse": if same { json!([p1]) } else { json!([p1, p2, p3]) },
+    let p4 = parse_out(guarded(|| HELPER.parse_element(s)));
+    let same = p1 == p2 && p2 == p3 && p3 == p4;
+    println!("{}", json!({"id": id, "s": s, "parse": if same { json!([p1]) } else { json!([p1, p2, p3, p4]) },
                           "reads": reads(s, &comps.0, &comps.1, &comps.2, &comps.3)}));
 }
 
